@@ -128,7 +128,26 @@ def run_function(prog: Program, resolver: Resolver, qual: str, layers: Tuple[str
         sp.pop(d, None)
     it = Interp(prog, resolver, sp, inline_depth)
     std_globals(it)
-    outs = it.run(qual, args)
+    # inlined helpers with several feasible return values are choice points: the function
+    # is re-interpreted once per combination (bounded)
+    outs: List[Outcome] = []
+    plans: List[List[int]] = [[]]
+    done = 0
+    while plans:
+        plan = plans.pop()
+        it.choice_plan, it.choice_log, it.choice_notes, it.active_ren = plan, [], [], {}
+        res = it.run(qual, args)
+        done += 1
+        if done > 48:
+            raise AnalysisError(f"{qual}: more than 48 combinations of helper outcomes")
+        extra = [(f"<{t}: {' & '.join(('' if v else 'not ') + c for c, v in p) or 'arm'}>", True) for t, p in it.choice_notes]
+        for o in res:
+            o.path = list(o.path) + extra
+            o.ren = {**it.active_ren, **o.ren}
+        outs += res
+        for i in range(len(plan), len(it.choice_log)):
+            for j in range(1, it.choice_log[i]):
+                plans.append(plan + [0] * (i - len(plan)) + [j])
     return Run(qual, args, outs, it.events, it)
 
 
